@@ -238,6 +238,7 @@ func runC17(w *World, r *Report) {
 	// R3 state store
 	cacheCore(w, r, la, false)
 	c17Wiring(w, r)
+	c17Helpers(w, r)
 	r.Min("R3", 2)
 	r.Min("R1", 8)
 	r.Min("R2", 7)
@@ -379,4 +380,45 @@ func sameNameCopyMismatches(lit *ssa.Alloc) (mismatches []string, copied int) {
 		}
 	}
 	return mismatches, copied
+}
+
+// c17Helpers: helpers the retry bookkeeping stands on: the context's Pop really
+// removes the key (the retry processor forgets an exhausted sequence with it),
+// and a response opens a new sequence exactly when its id equals its sequence id.
+func c17Helpers(w *World, r *Report) {
+	if pop := w.Fn(pkgLctx, "contextMemory.Pop"); pop == nil {
+		r.Undec("R1", "contextMemory.Pop", token.NoPos, "function not found")
+	} else {
+		lad := CallsIn(pop, false, "sync.Map).LoadAndDelete")
+		ld := CallsIn(pop, false, "sync.Map).Load")
+		ok := len(lad) == 1 && len(ld) == 0
+		if ok {
+			for _, alt := range ReturnAlts(pop, 0) {
+				if !isNilConst(alt.Val) && !Derives(alt.Val, func(x ssa.Value) bool { return x == lad[0].Value() }) {
+					ok = false
+				}
+			}
+		}
+		r.Check(ok, "R1", "contextMemory.Pop/removes-what-it-returns", pop.Pos(), "Pop is LoadAndDelete on the context map (a key that is popped is gone: removeCount of an exhausted retry sequence relies on it)")
+	}
+	for _, c := range []struct{ pkg, fn string }{{"lunar/engine/messages", "OnResponse.IsNewSequence"}, {"lunar/engine/streams/types", "OnResponse.IsNewSequence"}, {"lunar/engine/streams/types", "OnRequest.IsNewSequence"}} {
+		f := w.Fn(c.pkg, c.fn)
+		if f == nil {
+			continue
+		}
+		ok, n := true, 0
+		for _, alt := range ReturnAlts(f, 0) {
+			n++
+			rel, isRel := NormCond(Cond{V: alt.Val, Pol: true})
+			if !isRel || rel.Op != "==" || len(alt.Conds) != 0 {
+				ok = false
+				continue
+			}
+			l, rr := Path(rel.L), Path(rel.R)
+			if !(strings.HasSuffix(l, ".ID") && strings.HasSuffix(rr, ".SequenceID") || strings.HasSuffix(rr, ".ID") && strings.HasSuffix(l, ".SequenceID")) {
+				ok = false
+			}
+		}
+		r.Check(ok && n == 1, "R2", "IsNewSequence/"+shortFn(fnID(f)), f.Pos(), "a transaction is a new sequence exactly when ID == SequenceID (nothing else - an empty sequence id is not a fresh start)")
+	}
 }
